@@ -502,10 +502,12 @@ theorem C14_folder_actual_only_by_event (n : Node) (op : Op) (j : Nat) (G G' : F
     by_cases hon : n.power = .on
     · by_cases hc : G.name = F
       · rw [if_pos hon, if_pos hc] at hne ⊢
-        unfold Folder.restore at hne ⊢
-        by_cases hr : G.restoreCd ≤ 0
-        · rw [if_pos hr]; exact ⟨hon, hc, hr, rfl⟩
-        · rw [if_neg hr] at hne; exact absurd rfl hne
+        rcases Folder.restoreIn_cases n.folders G with e | e <;> rw [e] at hne ⊢
+        · exact absurd rfl hne
+        · unfold Folder.restore at hne ⊢
+          by_cases hr : G.restoreCd ≤ 0
+          · rw [if_pos hr]; exact ⟨hon, hc, hr, rfl⟩
+          · rw [if_neg hr] at hne; exact absurd rfl hne
       · rw [if_pos hon, if_neg hc] at hne; exact absurd rfl hne
     · rw [if_neg hon] at hne; exact absurd rfl hne
   case fsDeleteFolder F => exfalso; apply hne; (repeat' split) <;> rfl
